@@ -465,14 +465,26 @@ class Buildable(Generic[T], metaclass=abc.ABCMeta):
 
   def _set_item_by_index(self, key: int, value: Any):
     """Set positional arguments by index."""
+    if key < 0:
+      all_positional_args, _ = self.__signature_info__.transform_to_args_kwargs(
+          self.__arguments__,
+          include_pos_or_kw_in_args=True,
+          include_no_value=True,
+      )
+      if key < -len(all_positional_args):
+        raise IndexError(
+            f'Cannot set positional argument with index {key}'
+            ' (index out of range).'
+        )
     key = self.__signature_info__.index_to_key(key, self.__arguments__)
     positional_num = self.__signature_info__.var_positional_start
     if positional_num is None:
-      # *args does not exist
-      positional_num = len(self.__signature_info__.parameters)
-      if self.__signature_info__.var_keyword_name:
-        # Exclude **kwargs
-        positional_num -= 1
+      # *args does not exist: only positional-only and positional-or-keyword
+      # parameters can be addressed by index.
+      positional_num = sum(
+          param.kind in (param.POSITIONAL_ONLY, param.POSITIONAL_OR_KEYWORD)
+          for param in self.__signature_info__.parameters.values()
+      )
 
     # Cannot set item when index is beyond current positional args list length.
     # Only index that points to *args can be out of range.
